@@ -2,7 +2,7 @@
 from vlib import *
 import defs as D, cmdline_sig
 from cmdline_check import run_cmdline_property, merge_cov
-import linegen
+import linegen, suite_trace
 
 
 def families(tier):
@@ -26,6 +26,8 @@ def run(v):
                                 driver={"defs": gbig, "n": 10000 if v.tier == "quick" else 200000,
                                         "gen": lambda rnd, d: [("line", linegen.group_line(rnd, d, 0.8))]})
     cov = merge_cov(cov, gcov, "groupline")
+    # the repository's own test-suite traced with the hooks on (shapes the generators do not produce)
+    cov.update(suite_trace.run_suite_trace(v))
     cov["rule"] = ("all lines up to maxlen: every accepted line together with every single insertion/duplication of an unknown "
                    "flag, surplus word, second occurrence of a single-use option and flag=value is in the enumerated set; "
                    "ExactlyOnce/AllDelivered/NoResurrection checked by TLC on the specification")
